@@ -20,7 +20,7 @@ CHECKS = {
             "metamorphic two-run monitor", "4.C06", "float tolerance 1e-7; known finding icode-twins-merged"),
     "C07": ("two-run metamorphic monitor: ignorable hetero residues, hydrogens, junk records, unused columns, "
             "--protonate-all, -k with own hydrogens must leave every record (and the text) unchanged",
-            "metamorphic two-run monitor", "4.C07", "-k feedback judged only without H contacts < 1.5 A to a second heavy atom"),
+            "metamorphic two-run monitor", "4.C07", "-k feedback: hydrogens of a parent with a double contact (< 1.5 A to a second heavy atom) are left to be rebuilt"),
     "C09": ("contract on every Group.calculate_charge call and boundary checks of get_charge_profile / get_pi / charge "
             "table / pI line against an independent Henderson-Hasselbalch evaluation from the group records",
             "runtime contract + reference-model monitor", "4.C09", "pI tolerance = precision"),
@@ -55,8 +55,9 @@ CHECKS = {
             "metamorphic two-run monitor with exact lattice motions", "4.C04",
             "known finding rotor-hydrogen-frame-dependent; hetero groups tier 1 only"),
     "C05": ("four-run metamorphic monitor: each part alone vs inside both unions at exact minimum distances from "
-            "25.001 A to the limits of the coordinate field", "metamorphic multi-run monitor", "4.C05",
-            "single-conformation parts"),
+            "25.001 A to the limits of the coordinate field; parts sharing chain identifiers, ligand kinds, parameter "
+            "files, alternate-location labels, junction numbers; a tuned near-tie cluster", "metamorphic multi-run monitor", "4.C05",
+            "known finding conformation-set-is-global (a distant part's alternate-location labels change a part's average)"),
     "C08": ("reference-model monitor: AVR vs the harness's own arithmetic mean over the conformations that report a "
             "group; top-up oracle from the harness's reading of MODEL/alt-loc records vs the atom lists of every "
             "conformation; identical-models and single-conformation relations",
